@@ -416,6 +416,83 @@ func TestC15(t *testing.T) {
 			r := c.RunB(bn.KwPrint+" \""+in+"\";\n", "")
 			return r.Out != in+"\n"
 		})
+		// differential NFC: what দেখাও prints for a string over Latin letters, Bangla letters and signs, combining
+		// marks and precomposed characters against a second NFC implementation (Python's unicodedata)
+		nd := 1500
+		if c.Thorough {
+			nd = 40000
+		}
+		var py *pyNFC
+		var pyErr error
+		pyTried := false
+		defer func() {
+			if py != nil {
+				py.Close()
+			}
+		}()
+		c15Alphabet := []rune{'a', 'e', 'E', 'o', 'u', 'A', 'n', ' ', 'ক', 'য', 'ড', 'ঢ', 'ব', 'র', 0x09be, 0x09c7, 0x09d7, 0x09cb, 0x09cc, 0x09bf, 0x09bc, 0x09cd, 0x0981, 0x09fe,
+			0x0301, 0x0308, 0x0323, 0x0334, 0x0327, 0x0303, 0x00e9, 0x00c5, 0x1ea1, 0x09dc, 0x09dd, 0x09df, 0x00a8, 0x0344, '1', '-'}
+		// the inputs of open finding vowel-sign-then-composing-mark: U+09BE or U+09D7 that is not the second half of a
+		// two-part vowel (not straight after U+09C7)
+		k21Shape := func(s string) bool {
+			r := []rune(s)
+			for i, ch := range r {
+				if (ch == 0x09be || ch == 0x09d7) && (i == 0 || r[i-1] != 0x09c7) {
+					return true
+				}
+			}
+			return false
+		}
+		c.Rapid("nfc-differential", nd, func(rt *rapid.T, s *Sub) {
+			if !pyTried {
+				pyTried = true
+				py, pyErr = startPyNFC()
+				if pyErr != nil {
+					c.Ev.Note("nfc-differential skipped: " + pyErr.Error())
+				}
+			}
+			if py == nil {
+				rt.Skip("no python3")
+			}
+			n := rapid.IntRange(1, 10).Draw(rt, "len")
+			r := make([]rune, n)
+			for i := range r {
+				r[i] = rapid.SampledFrom(c15Alphabet).Draw(rt, "ch")
+			}
+			str := string(r)
+			want, run, err := py.NFC(str)
+			if err != nil {
+				s.Harness("python NFC co-process failed: %v", err)
+			}
+			split := rapid.IntRange(0, n).Draw(rt, "split")
+			src := bn.KwPrint + " \"" + str + "\";\n" + bn.KwPrint + " [\"" + str + "\"];\n" + bn.KwPrint + " \"" + string(r[:split]) + "\" + \"" + string(r[split:]) + "\";\n"
+			res := c.RunB(src, "")
+			lib := norm.NFC.String(str)
+			asLib := res.Out == lib+"\n["+lib+"]\n"+lib+"\n"
+			switch {
+			case run > 30 && c.Open("overlong-mark-run"):
+				c.Ev.Exclude("overlong-mark-run")
+				if !asLib {
+					s.Violation(Replay{Check: "nfc", Sig: "overlong-other", Source: src, Note: "neither NFC nor the form of open finding overlong-mark-run", Observed: clip(res.Describe(), 400)})
+				}
+				return
+			case k21Shape(str) && c.Open("vowel-sign-then-composing-mark"):
+				c.Ev.Exclude("vowel-sign-then-composing-mark")
+				if !asLib {
+					s.Violation(Replay{Check: "nfc", Sig: "vowel-sign-other", Source: src, Note: "neither NFC nor the form of open finding vowel-sign-then-composing-mark", Observed: clip(res.Describe(), 400)})
+				}
+				return
+			}
+			c.Ev.Case("nfc-differential", str, want != str || lib != str, "nfc-differential")
+			if res.Class() != "clean" || res.Out != want+"\n["+want+"]\n"+want+"\n" {
+				s.Violation(Replay{Check: "nfc", Sig: "nfc-differs", Source: src, Note: fmt.Sprintf("the printed text is not the NFC form of the string: expected %+q", want), Expected: want, Observed: clip(res.Describe(), 400)})
+			}
+		})
+		c.Probe("vowel-sign-then-composing-mark", func() bool {
+			in := "a\u09be\u09cd\u0301"
+			r := c.RunB(bn.KwPrint+" \""+in+"\";\n", "")
+			return r.Out != in+"\n"
+		})
 		c.Sub("shared-containers", func(s *Sub) {
 			if c.Shard != 0 {
 				return
